@@ -277,6 +277,25 @@ def rule_y5(chk: Check) -> None:
     if not okp:
         chk.finding("Y5", fi.key, "proxy-wiring", "a proxy location's upstream/prefix/strip_prefix/timeout do not reach the ProxyHandler unchanged", fi.loc())
     chk.ob("Y5", "ProxyHandler wired from its location", okp)
+    # one handler per location: a ProxyHandler carries its location's prefix and strip
+    # setting, so it must not be kept in / taken from a container shared between locations
+    oks = True
+    for st in ast.walk(fi.node):
+        if not isinstance(st, (ast.Assign, ast.AnnAssign, ast.Expr, ast.Return)):
+            continue
+        val = st.value
+        if val is None or not any(isinstance(x, ast.Call) and (dotted(x.func) or "").split(".")[-1] == "ProxyHandler" for x in ast.walk(val)):
+            continue
+        direct = isinstance(val, ast.Call) and (dotted(val.func) or "").split(".")[-1] == "ProxyHandler"
+        tgt_ok = isinstance(st, ast.Return) or (isinstance(st, ast.Assign) and all(isinstance(t, ast.Name) for t in st.targets)) or (isinstance(st, ast.AnnAssign) and isinstance(st.target, ast.Name))
+        if not (direct and tgt_ok):
+            oks = False
+            chk.finding(
+                "Y5", fi.key, f"handler-shared:{norm(st)[:50]}",
+                f"`{norm(st)[:80]}` keeps a ProxyHandler in a container instead of building one per location: a second location with the same key is served by the first one's handler, with the wrong prefix / strip_prefix, so its requests reach the upstream under a different path",
+                fi.loc(st),
+            )
+    chk.ob("Y5", "each proxy location gets its own handler", oks)
     rr = chk.proj.func("server.router:Router.route")
     g = build_cfg(chk.proj, rr)
     heads = [n for n in g.nodes if n.kind == "for"]
@@ -308,5 +327,8 @@ def run(chk: Check) -> None:
     rule_y2(chk, ci)
     rule_y3_y4(chk, ci)
     rule_y5(chk)
+    from .c19 import wire_fidelity
+
+    wire_fidelity(chk, "Y6", "the proxy's client puts the joined URL on the wire with path and query as given: normalisation does not rewrite them (= C19.N1-N3)")
     chk.trusted = ["CPython ast parser", "engine CFG / abstract string domain", "urllib.parse: with an authority, the path is empty or starts with '/'"]
     chk.assumptions = ["how parse_url re-parses the joined string for exotic hosts is not decided (IPv6 upstreams rely on C19.N1)"]
